@@ -308,7 +308,7 @@ fn fs_radix() -> u64 {
         + FS_DELAYS.len() as u64 * 2    // delay(N, atom in {x, last}, t)
         + 2 * 4 * 4                     // if (c) B else B
         + 2                             // arithmetic on last
-        + 2                             // match-free: nested block with two stateful lets / dsp self
+        + 3                             // nested block with two stateful lets / dsp self / block shadowing a name
 }
 pub fn fs_count(k: u32) -> u64 {
     seq_count(fs_radix(), k)
@@ -402,13 +402,26 @@ fn fs_stmt(c: &mut Ctx, mut o: u64) -> Option<()> {
             c.stmts.push(let_(&v, e));
             c.vars.push(v);
         }
-        _ => {
+        1 => {
             // dsp's own self (scalar part): only as first statement, marks the program
             if !c.stmts.is_empty() || c.dsp_self {
                 return None;
             }
             c.ops.push("dsp_self".into());
             c.dsp_self = true;
+        }
+        _ => {
+            // an inner block rebinds the most recent name; the outer binding must be unaffected afterwards
+            let last = c.vars.last()?.clone();
+            let v = c.fresh();
+            let e = block(vec![let_(&last, bin("+", var(&last), num(5.0)))], bin("*", var(&last), num(2.0)));
+            c.ops.push(format!("block shadowing {last}"));
+            c.stmts.push(let_(&v, e));
+            // make the outer name observable after the block
+            let w = c.fresh();
+            c.stmts.push(let_(&w, bin("+", var(&last), num(0.25))));
+            c.vars.push(v);
+            c.vars.push(w);
         }
     }
     Some(())
